@@ -193,7 +193,6 @@ type Sess struct {
 	idleStarted  int32
 	idleReady    int32
 	idleReturned int32
-	BigAppend    bool // do not materialise APPEND payloads (100 MiB cases): count bytes only
 }
 
 func (s *Sess) Close() error {
@@ -235,7 +234,7 @@ func (s *Sess) Idle(w *imapserver.UpdateWriter, stop <-chan struct{}) error {
 }
 
 func (s *Sess) Append(mailbox string, r imap.LiteralReader, o *imap.AppendOptions) (*imap.AppendData, error) {
-	if !s.BigAppend && r.Size() <= 1<<20 {
+	if r.Size() <= 1<<20 {
 		return s.Stub.Append(mailbox, r, o)
 	}
 	var n int64
